@@ -8,6 +8,7 @@
 #include <cstring>
 #include <unistd.h>
 #include <sys/wait.h>
+#include <time.h>
 // every block carries a header: position in the list of live blocks + the number of the allocation request that created it
 struct Hdr { Hdr* prev; Hdr* next; long seq; long pad; };
 static Hdr live_list = { &live_list, &live_list, -1, 0 };
@@ -40,6 +41,8 @@ extern "C" void g_free(void* p, size_t) { my_free(p); }
 __attribute__((constructor(101))) static void early_gmp() { mp_set_memory_functions(g_malloc, g_realloc, g_free); }
 
 
+static double g_limit = 60.0;   // seconds granted to one history (the process is killed, and reported as a hang, beyond it)
+static double now_s() { struct timespec ts; clock_gettime(CLOCK_MONOTONIC, &ts); return ts.tv_sec + ts.tv_nsec * 1e-9; }
 static int MODE = 0;   // 0 alloc, 1 abandon, 2 overflow (natural), 3 alloc in a cold process (no warm-up: first-use allocations of library-global buffers are fault positions too)
 static long ab_calls = 0, ab_at = -1;
 struct Abandoned : public Throwable { void throw_me() const { if (counting) { if (ab_at >= 0 && ab_calls == ab_at) { ++ab_calls; fired = true; throw *this; } ++ab_calls; } } };
@@ -96,8 +99,10 @@ template <typename Sys> static void cold_history(Sys& sys, vj::Writer& W) {
   if (got != (ssize_t) sizeof v) { W.line("{\"e\":\"Crash\",\"sig\":0,\"h\":0}"); return; }   // the undisturbed run itself died: not a fault behaviour
   long N = (long) v[0]; unsigned long refhash = v[1];
   { vj::Obj h; h.s("e", "Hist").i("mode", MODE).i("n", N).i("ops", sys.size()).i("stop", -1).s("thrown", "none").s("op", "").b("usable", v[2] != 0).b("okafter", v[2] != 0).b("big", false); W.line(h.str()); }
+  double t_begin = now_s();
   long stride = N > 100 ? (N + 99) / 100 : 1;
   for (long k = 0; k < N; k += stride) {
+    if (now_s() - t_begin > g_limit / 2) break;
     pid_t c = fork();
     if (c == 0) {
       alarm(20);
@@ -123,7 +128,9 @@ template <typename Sys> static void fault_history(Sys& sys, vj::Writer& W) {
   if (MODE == 1) abandon_expensive_computations = &the_abandon;
   W.buf.reserve(1 << 16);
   W.line("{\"e\":\"Reset\"}");
+  double t_begin = now_s();
   for (int w = 0; w < 3; ++w) (void) one(sys, -1, 0);
+  double t_run = (now_s() - t_begin) / 3.0;   // cost of one undisturbed run
   Res ref; long N;
   { total = 0; ab_calls = 0; fail_at = -1; ab_at = -1; fired = false; run_once(sys, ref); N = (MODE == 1) ? ab_calls : total;
     bool us, ok; sys.recover(us, ok);
@@ -139,8 +146,12 @@ template <typename Sys> static void fault_history(Sys& sys, vj::Writer& W) {
     W.line(e.str());
     return;
   }
+  // the time limit of the history is a guard against genuine non-termination after a fault, not a budget: a history whose undisturbed
+  // run is slow is enumerated only as far as half the limit allows (and not at all if four runs would not fit in a third of it)
+  if (t_run * 4 > g_limit / 3) return;
   long stride = N > 240 ? (N + 239) / 240 : 1;
   for (long k = 0; k < N; k += stride) {
+    if (now_s() - t_begin > g_limit / 2) break;
     long live0 = live; long s0 = seqno; Pod q = one(sys, k, 0); long leak = live - live0, leak2 = 0;
     if (leak != 0) {
       if (getenv("FAULT_BT")) {   // diagnosis: list the blocks of that run that are still alive and show where the repetition allocates them
